@@ -376,16 +376,22 @@ def check_calendar(prog, rep):
     if not utc:
         raise AnalysisBroken('R15.4: local "utc" not found')
     utc_d = utc[0]['d']
-    it = Interp(prog, Model(), max_depth=0)
+    class GuardModel(Model):
+        """guards are closed integer expressions over the three fields; small library helpers are inlined, conversions wrap like the hardware"""
+        def primitive(self, it, fr, n, callee, depth):
+            return NotImplemented if callee.get('repo') else TOP
+    it = Interp(prog, GuardModel(), max_depth=3)
     it.path = type('P', (), {'actions': [], 'guards': []})()
     it.decisions, it.dpos, it.new_choices, it.store, it.steps, it.off = [], 0, [], {}, 0, 0
     from bsv.dtab import Frame
     fr = Frame(f)
     it.frames = {id(fr): fr}
     bad_acc, bad_rej, n_cells = [], [], 0
+    big = [b + r for b in (1 << 31, 1 << 32, (1 << 32) + 400 * 7, 1 << 40, 25252734927764000) for r in range(0, 400)]
+    big = big + [-y for y in big]
     for m in range(1, 13):
         for d in (1, 28, 29, 30, 31, 32):
-            for y in list(range(-400, 401)):
+            for y in list(range(-400, 401)) + (big if (m == 2 and d in (28, 29)) else []):
                 st = Struct()
                 st.fields.update({'Year': y, 'Month': m, 'Day': d})
                 fr.env[utc_d] = st
